@@ -207,4 +207,3 @@ func CloneForTwin(in [][]*Req) [][]*Req {
 	}
 	return out
 }
-
